@@ -62,7 +62,7 @@ def main():
         meta = json.load(open(d + "meta.json"))
         props = meta.get("caught_by") or list(meta.get("checks_run", {}).keys()) or [meta["property"]]
         items.append(("seeded/" + n, d + "patch.diff", props))
-    related = {"C19": ["C19"], "C07": ["C07"], "C08": ["C08", "C06"], "C03": ["C03", "C01", "C04", "C12"], "C17": ["C17", "C02", "C04", "C12"], "C16": ["C16", "C04", "C12"], "C11": ["C11", "C07", "C04"], "C12": ["C12", "C13", "C04", "C03"]}
+    related = {"C19": ["C19"], "C07": ["C07"], "C08": ["C08", "C06"], "C03": ["C03", "C01", "C04", "C12"], "C17": ["C17", "C02", "C04", "C12"], "C16": ["C16", "C04", "C12"], "C11": ["C11", "C07", "C04"], "C12": ["C12", "C13", "C04", "C03"], "C02": ["C02", "C01", "C04", "C12", "C17"]}
     for p in sorted(glob.glob(V + "/selftest/harmless/*.patch")):
         n = os.path.basename(p)[:-6]
         items.append(("harmless/" + n, p, related.get(n.split("-")[0], [n.split("-")[0]])))
